@@ -19,7 +19,8 @@ pub const ALT_DEFAULT: &[&str] = &[
     "#t", "#f", "#nil", "()", "( )", "[]",
     // characters
     "#\\a", "#\\A", "#\\(", "#\\)", "#\\;", "#\\\"", "#\\#", "#\\\\", "#\\x", "#\\x41", "#\\x3bb", "#\\x10FFFF", "#\\x0", "#\\nul", "#\\alarm", "#\\backspace", "#\\tab",
-    "#\\xD8000", "#\\xDFFF0", "#\\x0D8000", "\"\\xD8000;\"", "(#\\xD8000)", "#\\linefeed", "#\\newline", "#\\vtab", "#\\page", "#\\return", "#\\esc", "#\\space", "#\\delete", "#\\λ", "#\\😀", "#\\é",
+    "#\\xD8000", "#\\xDFFF0", "#\\x0D8000", "\"\\xD8000;\"", "(#\\xD8000)", "#\\\u{80}", "#\\\u{7ff}", "#\\\u{800}", "#\\\u{d7ff}", "#\\\u{e000}", "#\\\u{ffff}", "#\\\u{10000}", "#\\\u{10ffff}", "\u{aa}", "\u{7fa}x", "\u{800}", "\u{d7fb}", "\u{ffdc}", "\u{10000}", "(\u{30000} \u{7fa})", "#:\u{7fa}",
+    "#\\linefeed", "#\\newline", "#\\vtab", "#\\page", "#\\return", "#\\esc", "#\\space", "#\\delete", "#\\λ", "#\\😀", "#\\é",
     // strings
     "\"\"", "\"a\"", "\"a b\"", "\"\\\"\"", "\"\\\\\"", "\"\\a\\b\\t\\n\\r\\v\\f\"", "\"\\|\"", "\"\\x41;\"", "\"\\x3bb;\"", "\"\\x1F600;\"", "\"\\x0;\"", "\"λ€😀\"", "\"a\\x41;λ\\nb\"",
     "\"line1\nline2\"", "\"tab\there\"", "\";not a comment\"", "\"(\"", "\"#|\"",
@@ -40,7 +41,7 @@ pub const ALT_DEFAULT: &[&str] = &[
 pub const ALT_ELISP: &[&str] = &[
     "nil", "t", "(nil t)", ":a", ":k-w", ":λ", "[a b]", "[]", "[a [b]]", "[(a . b)]", "(a . [b])", "?a", "?A", "?\\(", "?\\)", "?\\[", "?\\]", "?\\\\", "?\\;", "?\\\"", "?\"", "?\\a", "?\\b",
     "?\\t", "?\\n", "?\\v", "?\\f", "?\\r", "?\\e", "?\\s", "?\\d", "?\\^a", "?\\^A", "?\\^z", "?\\x41", "?\\x3bb", "?\\x10ffff", "?\\101", "?\\0", "?\\u03bb", "?\\U0001F600", "?\\N{U+3bb}",
-    "?\\xD8000", "?\\xd8000", "?\\1540000", "?\\1577770", "?\\N{U+D8000}", "\"\\N{U+D8000}\"", "\"\\xD8000\"", "[?\\xD8000]", "?λ", "?😀", "? ", "?#", "?'", "?.", "?\\.", "?\\'", "?\\#", "?\\,", "?\\`", "?\\|",
+    "?\\xD8000", "?\\xd8000", "?\\1540000", "?\\1577770", "?\\N{U+D8000}", "\"\\N{U+D8000}\"", "\"\\xD8000\"", "[?\\xD8000]", "?\u{80}", "?\u{7ff}", "?\u{800}", "?\u{d7ff}", "?\u{e000}", "?\u{ffff}", "?\u{10000}", "?\u{10ffff}", "?\\\u{7ff}", "?λ", "?😀", "? ", "?#", "?'", "?.", "?\\.", "?\\'", "?\\#", "?\\,", "?\\`", "?\\|",
     "\"\"", "\"a\"", "\"\\\"\\\\\"", "\"\\a\\b\\t\\n\\v\\f\\r\\e\\s\\d\"", "\"\\^a\\^Z\"", "\"\\101\"", "\"\\101\\102\"", "\"\\0\"", "\"\\377\"", "\"\\x41\"", "\"\\x41\\ \"", "\"\\xff\"",
     "\"\\x3bb\"", "\"\\u03bb\"", "\"\\U0001F600\"", "\"\\N{U+3bb}\"", "\"a\\ b\"", "\"\\101λ\"", "\"λ\"", "\"\\u0041\\101\"", "\"a\\qb\"", "\"\\\n\"", "\"\\400\"", "\"\\x100\"",
     "\"\\377\x7f\"", "\"\x7f\\377\"", "\"\\377a\"", "\"a\\377\"", "\"\\377 \"", "\"\\101\x7f\"", "\"é\\x21\"", "\"\\x21é\"", "\"\\377\\u00e9\"", "\"\\x21\u{80}\"", "\"\u{80}\\x21\"", "\"\\x21\\x7f\"",
